@@ -511,10 +511,10 @@ func c07Ops(r *Rand, inputLen, padLen int, spec bool) []string {
 // ---------------------------------------------------------------------------------------------
 // search leg: Parse through the public API under different schedules
 
-func c07Dump(rd io.Reader, l syntax.LangVariant, stop string) string {
+func c07Dump(rd io.Reader, l syntax.LangVariant, stop string, keep bool) string {
 	var out string
 	p := safely(func() {
-		opts := []syntax.ParserOption{syntax.Variant(l), syntax.KeepComments(true)}
+		opts := []syntax.ParserOption{syntax.Variant(l), syntax.KeepComments(keep)}
 		if stop != "" {
 			opts = append(opts, syntax.StopAt(stop))
 		}
@@ -576,9 +576,10 @@ func c07First(a, b string) string {
 }
 
 // c07ParseCase compares Parse under the given schedule with the single-read result.
-// witness format: parse <lang> <stop|-> <sched> <eofWith> <input-hex>
-func c07ParseCase(c *Ctx, src string, l syntax.LangVariant, stop string, sched []int, eofWith bool, base string) bool {
-	got := c07Dump(&c07Reader{data: []byte(src), sched: sched, eofWith: eofWith}, l, stop)
+// witness format: parse <lang> <stop|-> <sched> <eofWith> <input-hex> [nokeep]   (nokeep = default options,
+// comments discarded; without it KeepComments(true))
+func c07ParseCase(c *Ctx, src string, l syntax.LangVariant, stop string, keep bool, sched []int, eofWith bool, base string) bool {
+	got := c07Dump(&c07Reader{data: []byte(src), sched: sched, eofWith: eofWith}, l, stop, keep)
 	if got == base {
 		return true
 	}
@@ -587,8 +588,11 @@ func c07ParseCase(c *Ctx, src string, l syntax.LangVariant, stop string, sched [
 	if eofWith {
 		ew = "1"
 	}
-	c.Fail(fmt.Sprintf("parse %s %s %s %s %s", langName(l), st, c07SchedStr(sched), ew, hx(src)),
-		"Parse differs from the single-read result: "+c07First(base, got))
+	w := fmt.Sprintf("parse %s %s %s %s %s", langName(l), st, c07SchedStr(sched), ew, hx(src))
+	if !keep {
+		w += " nokeep"
+	}
+	c.Fail(w, "Parse differs from the single-read result: "+c07First(base, got))
 	return false
 }
 
@@ -600,17 +604,17 @@ func c07Ones(n int) []int {
 	return o
 }
 
-func c07SearchInput(c *Ctx, r *Rand, src string, l syntax.LangVariant, stop string, tags []string) {
+func c07SearchInput(c *Ctx, r *Rand, src string, l syntax.LangVariant, stop string, keep bool, tags []string) {
 	if ex := c07Excluded(src, l); ex != "" {
 		c.Case("x", false, ex)
 		return
 	}
-	base := c07Dump(strings.NewReader(src), l, stop)
+	base := c07Dump(strings.NewReader(src), l, stop, keep)
 	n := len(src)
 	kinds := 0
-	ok := c07ParseCase(c, src, l, stop, c07Ones(n), false, base)
-	ok = ok && c07ParseCase(c, src, l, stop, nil, true, base) // iotest.DataErrReader
-	ok = ok && c07ParseCase(c, src, l, stop, c07Ones(n), true, base)
+	ok := c07ParseCase(c, src, l, stop, keep, c07Ones(n), false, base)
+	ok = ok && c07ParseCase(c, src, l, stop, keep, nil, true, base) // iotest.DataErrReader
+	ok = ok && c07ParseCase(c, src, l, stop, keep, c07Ones(n), true, base)
 	kinds += 3
 	// every single split point (at most 64, sampled around the buffer edges when longer)
 	var splits []int
@@ -642,7 +646,7 @@ func c07SearchInput(c *Ctx, r *Rand, src string, l syntax.LangVariant, stop stri
 		if !ok {
 			break
 		}
-		ok = c07ParseCase(c, src, l, stop, []int{at}, false, base)
+		ok = c07ParseCase(c, src, l, stop, keep, []int{at}, false, base)
 		kinds++
 	}
 	for i := 0; i < 3 && ok; i++ {
@@ -655,7 +659,7 @@ func c07SearchInput(c *Ctx, r *Rand, src string, l syntax.LangVariant, stop stri
 			rc = append(rc, k)
 			left -= k
 		}
-		ok = c07ParseCase(c, src, l, stop, rc, r.Bool(), base)
+		ok = c07ParseCase(c, src, l, stop, keep, rc, r.Bool(), base)
 		kinds++
 	}
 	nontrivial := strings.ContainsAny(src, "\\`$\"'<(\x00\r") || n > syntax.VerifBufSize-16
@@ -715,12 +719,13 @@ func c07Pad(r *Rand, src string) (string, string) {
 func c07Replay(c *Ctx, line string) {
 	f := strings.Fields(line)
 	switch {
-	case len(f) == 6 && f[0] == "parse":
+	case (len(f) == 6 || (len(f) == 7 && f[6] == "nokeep")) && f[0] == "parse":
+		keep := len(f) == 6
 		l := c07LangByName(f[1])
 		stop := unhx(f[2])
 		src := unhx(f[5])
-		base := c07Dump(strings.NewReader(src), l, stop)
-		c07ParseCase(c, src, l, stop, c07ParseSched(f[3]), f[4] == "1", base)
+		base := c07Dump(strings.NewReader(src), l, stop, keep)
+		c07ParseCase(c, src, l, stop, keep, c07ParseSched(f[3]), f[4] == "1", base)
 		c.Case("corpus/"+line, true, "corpus-parse")
 	case len(f) >= 6 && f[0] == "run":
 		ops := f[5:]
@@ -748,6 +753,17 @@ var c07Lookahead = []struct {
 	{syntax.LangZsh, "echo <-> <1-10> foo<5->.txt <2-3\n"}, {syntax.LangBash, "echo `echo \\\\\\\\\\$x`\n"},
 	{syntax.LangBash, "a=(b c)\n"}, {syntax.LangBash, "echo \xc3\xa9\xe2\x82\xac\n"},
 }
+
+// c07BadTemplates: `@` is replaced by an invalid UTF-8 byte sequence.
+var c07BadTemplates = []string{
+	"# caf@ au lait\necho ok\n", "echo x # tail @\necho y\n", "echo a@b\n", "echo 'x@y'\n", "echo \"x@y\"\n",
+	"cat <<EOF\nbody @\nEOF\n", "cat <<'EOF'\nbody @\nEOF\n", "echo $(echo @)\n", "echo `echo x # c@\n`\n",
+	"echo ${x:-@}\n", "#@\n", "a=@ b\n", "echo $'x@'\n",
+}
+
+// invalid UTF-8: lone bytes 0x80–0xff, truncated sequences, overlong forms, surrogates, too large
+var c07BadSeqs = []string{"\x80", "\xbf", "\xe9", "\xff", "\xfe", "\xc0", "\xc3", "\xe2\x82", "\xf0\x9f\x98",
+	"\xc0\xaf", "\xc1\xbf", "\xe0\x80\xaf", "\xf0\x80\x80\xaf", "\xed\xa0\x80", "\xf4\x90\x80\x80", "\xf8\x88\x80\x80\x80"}
 
 // c07LookaheadBattery runs, on every run, (a) the tie with a peekTwo / zshNumRange / stop-word op
 // after every rune for every single split point (so that the lookahead happens with p.bsp > 0 and a
@@ -782,14 +798,32 @@ func c07LookaheadBattery(c *Ctx) {
 			c.Op(fmt.Sprintf("specrun %s - %s", hx(in.src), strings.Join(done, " ")), got)
 		}
 		c.Case("battery-tie/"+in.src, true, "battery-tie")
-		base := c07Dump(strings.NewReader(in.src), in.lang, "")
-		for at := 1; at < n; at++ {
-			c07ParseCase(c, in.src, in.lang, "", []int{at}, false, base)
-			c07ParseCase(c, in.src, in.lang, "", []int{at, 1}, at%2 == 0, base)
+		for _, keep := range []bool{true, false} {
+			base := c07Dump(strings.NewReader(in.src), in.lang, "", keep)
+			for at := 1; at < n; at++ {
+				c07ParseCase(c, in.src, in.lang, "", keep, []int{at}, false, base)
+				c07ParseCase(c, in.src, in.lang, "", keep, []int{at, 1}, at%2 == 0, base)
+			}
+			c07ParseCase(c, in.src, in.lang, "", keep, c07Ones(n), false, base)
+			c07ParseCase(c, in.src, in.lang, "", keep, nil, true, base)
 		}
-		c07ParseCase(c, in.src, in.lang, "", c07Ones(n), false, base)
-		c07ParseCase(c, in.src, in.lang, "", nil, true, base)
 		c.Case("battery-parse/"+in.src, true, "battery-parse")
+	}
+	// invalid UTF-8 in every lexical context, with and without KeepComments: success / error (and the
+	// error text with its position) must not depend on the schedule
+	for _, tpl := range c07BadTemplates {
+		for _, bad := range []string{"\xe9", "\xe2\x82", "\xc0\xaf"} {
+			src := strings.ReplaceAll(tpl, "@", bad)
+			n := len(src)
+			for _, keep := range []bool{true, false} {
+				base := c07Dump(strings.NewReader(src), syntax.LangBash, "", keep)
+				for at := 1; at < n; at++ {
+					c07ParseCase(c, src, syntax.LangBash, "", keep, []int{at}, at%2 == 0, base)
+				}
+				c07ParseCase(c, src, syntax.LangBash, "", keep, c07Ones(n), false, base)
+			}
+			c.Case("battery-badutf8/"+src, true, "battery-badutf8")
+		}
 	}
 }
 
@@ -798,7 +832,7 @@ func c07(c *Ctx) {
 		"multi-byte and invalid UTF-8}, a third padded to the 1 KiB buffer edge, × random op sequences over the byte-source primitives " +
 		"× schedules {single read, one byte, one split, random chunks with zero-length reads, zero reads + split at the buffer edge} " +
 		"× EOF with/without the last data; spec: protocol-respecting op sequences vs the unchunked machine; search: Parse " +
-		"(typedjson with positions, or error) of repository test inputs and generated programs, padded around the buffer edge, " +
+		"(typedjson with positions, or error text) with and without KeepComments, of repository test inputs, generated programs and inputs with invalid UTF-8 (lone bytes, truncated, overlong) in comments/words/quotes/heredocs, padded around the buffer edge, " +
 		"5 variants, optional StopAt words, one-byte / ≤64 single splits / 3 random chunkings / EOF with the last data vs single read; a fixed battery of two-byte-lookahead inputs under every split; non-trivial = input has a metacharacter of the " +
 		"byte layer or crosses the buffer edge; distinct by (variant, input)"
 	for _, l := range c.CorpusLines() {
@@ -879,6 +913,17 @@ func c07(c *Ctx) {
 			}) + genFrom(sr, c07Alpha, 4)
 			tags = append(tags, "search-lookahead")
 		}
+		if sr.Chance(12) {
+			// invalid UTF-8 somewhere: inside a template context, or spliced into the drawn input
+			bad := sr.Pick(c07BadSeqs)
+			if sr.Bool() || len(src) == 0 {
+				src = strings.ReplaceAll(sr.Pick(c07BadTemplates), "@", bad)
+			} else {
+				at := sr.Intn(len(src) + 1)
+				src = src[:at] + bad + src[at:]
+			}
+			tags = append(tags, "search-badutf8")
+		}
 		if len(src) > 2000 {
 			continue
 		}
@@ -897,7 +942,13 @@ func c07(c *Ctx) {
 			tags = append(tags, "search-stopat")
 		}
 		for _, l := range langs {
-			c07SearchInput(c, sr, padded, l, stop, tags)
+			// with KeepComments and with the default options (comments discarded) alternately
+			keep := sr.Bool()
+			kt := "search-keepcomments"
+			if !keep {
+				kt = "search-nokeep"
+			}
+			c07SearchInput(c, sr, padded, l, stop, keep, append(tags[:len(tags):len(tags)], kt))
 		}
 	}
 }
